@@ -405,16 +405,20 @@ for (t0, t1) in ((0.0, 0.75), (0.1, 0.9), (0.25, 1.0), (0.3, 0.4)):
     for u in (0.0, 0.3, 0.5, 0.8, 1.0):
         if abs(c.point(u) - a.point(t0 + u * (t1 - t0))) > 1e-6 * (1 + abs(a.start) + abs(a.radius)):
             REPRODUCED('%%r.cropped(%%r,%%r).point(%%r) = %%r but point(%%r) = %%r' %% (a, t0, t1, u, c.point(u), t0 + u * (t1 - t0), a.point(t0 + u * (t1 - t0))))
-l, r = a.split(0.4)
-if abs(l.end - r.start) > 1e-9 or abs(l.end - a.point(0.4)) > 1e-6: REPRODUCED('split pieces do not meet at point(t)')
+for t in (0.125, 0.25, 0.4, 0.5, 0.8):
+    l, r = a.split(t)
+    if abs(l.end - r.start) > 1e-9 or abs(l.end - a.point(t)) > 1e-6: REPRODUCED('split pieces do not meet at point(t)')
+    for u in (0.0, 0.3, 0.5, 0.8, 1.0):
+        if abs(l.point(u) - a.point(u * t)) > 1e-6 * (1 + abs(a.start) + abs(a.radius)) or abs(r.point(u) - a.point(t + u * (1 - t))) > 1e-6 * (1 + abs(a.start) + abs(a.radius)):
+            REPRODUCED('%%r.split(%%r): piece points %%r / %%r, expected %%r / %%r' %% (a, t, l.point(u), r.point(u), a.point(u * t), a.point(t + u * (1 - t))))
 '''
 
 
-def fam_cropped_flags(R, sw):
+def fam_cropped_flags(R, sw, via='cropped'):
     """Arc.cropped: the new large_arc flag is |delta*(t1-t0)| > 180; sweep, radii, rotation kept; end points = point(t0), point(t1)."""
     import svgpathtools.path as P
     install(P)
-    R.bound(sweep=sw)
+    R.bound(sweep=sw, via=via)
     R.stub('Arc._parameterize -> free theta/delta/centre; Arc.point -> uninterpreted')
     orig, origpoint = P.Arc._parameterize, P.Arc.point
     made = []
@@ -445,7 +449,16 @@ def fam_cropped_flags(R, sw):
             t0, t1 = symr('t0'), symr('t1')
             Ctx.cur.assume(t0.e >= 0, t0.e < t1.e, t1.e <= 1)
             Ctx.cur.assume(z3.Or(fx(t0.e) != fx(t1.e), fy(t0.e) != fy(t1.e)))      # distinct crop points (Arc asserts start != end)
-            c = a.cropped(t0, t1)
+            if via == 'cropped':
+                c = a.cropped(t0, t1)
+            else:
+                # split(t): the piece before t is the crop (0, t), the piece after it the crop (t, 1)
+                if via == 'split-first':
+                    Ctx.cur.assume(t0.e == 0, t1.e < 1, z3.Or(fx(t1.e) != fx(z3.RealVal(1)), fy(t1.e) != fy(z3.RealVal(1))))
+                    c = a.split(t1)[0]
+                else:
+                    Ctx.cur.assume(t1.e == 1, t0.e > 0, z3.Or(fx(t0.e) != fx(z3.RealVal(0)), fy(t0.e) != fy(z3.RealVal(0))))
+                    c = a.split(t0)[1]
             return a, c, t0, t1
         finally:
             P.Arc._parameterize, P.Arc.point = orig, origpoint
@@ -459,7 +472,7 @@ def fam_cropped_flags(R, sw):
         span = zabs(a.delta.d * (t1.e - t0.e))
 
         def cex(m):
-            return {'cls': 'Arc.cropped large_arc flag', 'inputs': {'sweep': sw, 'delta': mval(m, SR(a.delta.d)), 't0': mval(m, t0), 't1': mval(m, t1)},
+            return {'cls': 'Arc.cropped large_arc flag' if via == 'cropped' else 'Arc.split pieces', 'inputs': {'sweep': sw, 'delta': mval(m, SR(a.delta.d)), 't0': mval(m, t0), 't1': mval(m, t1)},
                     'script': REPLAY_CROP % ('Arc(2+0j, 2+2j, 0, True, %r, 1+1.7320508075688772j)' % sw)}
         R.ob('cropped.large_arc-iff-span>180', ctx, z3.And(z3.Implies(span > 180, z3.BoolVal(bool(c.large_arc))), z3.Implies(span < 180, z3.BoolVal(not c.large_arc))), cex=cex)
         R.ob('cropped.keeps-sweep-radius-rotation', ctx, z3.And(z3.BoolVal(c.sweep == a.sweep and c.rotation == a.rotation), ceq(c.radius, a.radius)), cex=cex)
@@ -485,4 +498,6 @@ def families(tier):
             fams.append(('reversed-%s-%d%d' % (rot, la, sw), M, 'fam_reversed_cropped', {'rot': rot, 'la': la, 'sw': sw}))
     for sw in (False, True):
         fams.append(('cropped-flags-sweep%d' % sw, M, 'fam_cropped_flags', {'sw': sw}))
+        for via in ('split-first', 'split-second'):
+            fams.append(('%s-flags-sweep%d' % (via, sw), M, 'fam_cropped_flags', {'sw': sw, 'via': via}))
     return fams
